@@ -47,10 +47,13 @@ CHECKS = {
         technique='property-based testing: Hypothesis-generated bodies/storage configurations/field paths through kopf\'s own '
                   'storages and diffs; oracles = metamorphic (framework writes and status/system edits leave the essence unchanged, '
                   'essential edits change it), round-trip (apply_diff(old, diff) == new, also reduced to a field) against an '
-                  'independent RFC 7386 merge and diff applier; plus closed-loop two-operator ping-pong scenarios',
+                  'independent RFC 7386 merge and diff applier; plus closed-loop two-operator ping-pong scenarios and closed-loop '
+                  'histories judging the old/new/diff kwargs of every (field-narrowed) change handler invocation',
         text='Generated-input exploration of the pure change-detection functions (thousands of bodies per run, incl. other '
              'Kopf operators\' prefixes, ReplicaSet-of-Deployment marking, nulls/empties/unicode) and of the closed loop with '
-             'one or two operators on the same object; bounded, not a proof.',
+             'one or two operators on the same object; in the closed loop every create/update/delete/resume handler invocation, '
+             'whole-object or with field=, is given old = the stored last-handled state, new = the essence of its view (at the field) '
+             'and a diff that applies old to new; bounded, not a proof.',
         note='trusted base: the independent merge-patch/diff appliers in kopfsim/rfc.py and props/c04.py; the other operator is '
              'assumed to use the stock storages; closed-loop part as for the kopfsim engine',
         design_ref='5/C04'),
